@@ -52,10 +52,10 @@ def cap_cfgs():
     c.append(cap("WRITE_BYTE", 16, 60, **N, **T))
     c.append(cap("WRITE", 16, 64, cnt=4, offmode=1, **N, **T))
     c.append(cap("WRITE", 48, 48, cnt=1, offmode=2, **N, **T))
-    c.append(cap("WRITE", 48, 96, cnt=2, nblk=6, **N, **T))
-    c.append(cap("WRITE", 48, 100, cnt=-100, nblk=6, **N, **T))
-    c.append(cap("WRITE", 16, 96, cnt=6, nblk=6, **N, **T))
-    c.append(cap("ZEROOUT", 16, 96, nblk=6, **N, **T))
+    c.append(cap("WRITE", 48, 96, cnt=2, nblk=5, **N, **T))
+    c.append(cap("WRITE", 48, 100, cnt=-100, nblk=5, **N, **T))
+    c.append(cap("WRITE", 16, 96, cnt=6, nblk=5, **N, **T))
+    c.append(cap("ZEROOUT", 16, 96, nblk=5, **N, **T))
     c.append(cap("WRITE", 16, 16, cnt=1, **T))          # with the crc-chain check
     return c
 
